@@ -7,6 +7,8 @@ From I18n Require Import Model.IntExpr Model.PluralForms.
 From I18n Require Import Model.Tags Generated.UcdPrintable.
 From I18n Require Import Model.MsgFormat.
 From I18n Require Import Model.Dates.
+From I18n Require Import Lib.Outcome Model.IntExpr Model.PluralForms Model.Tags Generated.UcdPrintable
+  Model.Header Generated.HeaderFields Generated.SpecialDomains Generated.UcdHeader.
 Extraction Language OCaml.
 Extraction "model.ml"
   IntExpr.parse_string IntExpr.pyeval IntExpr.codomain IntExpr.period
@@ -15,4 +17,8 @@ Extraction "model.ml"
   MsgFormat.c_check_args MsgFormat.py_check_args MsgFormat.map_check_args MsgFormat.perl_check_args MsgFormat.plan_message
   Dates.fix_date_real Dates.parse_date_re_real Dates.bp_search_real Dates.strip_real Dates.check_dates_real
   Dates.ord_real Dates.parse_date Dates.stamp_minutes Dates.hint_check
+  Header.hdr_check Header.content_type_match Header.parse_header Header.is_special Header.comment_line_boilerplate
+  Header.unusual_chars Header.is_conflict_marker Header.splitlines Header.project_diags Header.sort_u
+  HeaderFields.header_fields HeaderFields.dedicated_fields SpecialDomains.special_exact_or_sub SpecialDomains.special_sub_only
+  UcdHeader.re_word_ranges UcdHeader.re_digit_ranges UcdHeader.re_space_ranges
   .
